@@ -179,12 +179,16 @@ class ClientRig:
         self.clock = task.Clock()
         self._saved_reactor = C.reactor
         C.reactor = self.clock
-        self.factory = C.DBusClientFactory()
-        self.connect_results = []
-        self.factory.getConnection().addBoth(self.connect_results.append)
-        self.conn = self.factory.buildProtocol(None)
-        self.transport = FakeUnixTransport() if unix else FakeTransport()
-        self.conn.makeConnection(self.transport)
+        try:
+            self.factory = C.DBusClientFactory()
+            self.connect_results = []
+            self.factory.getConnection().addBoth(self.connect_results.append)
+            self.conn = self.factory.buildProtocol(None)
+            self.transport = FakeUnixTransport() if unix else FakeTransport()
+            self.conn.makeConnection(self.transport)
+        except Exception as e:
+            C.reactor = self._saved_reactor
+            raise RigFailure('the client factory could not produce a connected protocol: %s: %s' % (type(e).__name__, e))
         self.unix = unix
         self.bus_name = bus_name
         self.hello_serial = None
